@@ -184,7 +184,7 @@ def gen_c16_item(r: random.Random, idx: int):
         return attrs
 
     # generics
-    gen_kind = r.choice(["", "", "", "T", "TU", "life", "const", "bounded", "where", "default"])
+    gen_kind = r.choice(["", "", "", "", "T", "TU", "life", "const", "bounded", "where", "default", "constdef", "constonly", "life2", "default2"])
     tparams = []
     if gen_kind == "T":
         it.generics, tparams = "<T>", ["T"]
@@ -200,15 +200,25 @@ def gen_c16_item(r: random.Random, idx: int):
         it.generics, tparams, it.where = "<T>", ["T"], " where T: Clone"
     elif gen_kind == "default":
         it.generics, tparams = "<T = String>", ["T"]
+    elif gen_kind == "constdef":
+        it.generics, tparams = "<T, const N: usize = 2>", ["T"]
+    elif gen_kind == "constonly":
+        it.generics, tparams = r.choice(["<const N: usize>", "<const N: usize = 3, const B: bool = true>"]), []
+    elif gen_kind == "life2":
+        it.generics, tparams = "<'a, 'b: 'a, T: 'a>", ["T"]
+    elif gen_kind == "default2":
+        it.generics, tparams = "<T = String, U = Vec<T>>", ["T", "U"]
 
     def ftype():
         ts = list(FIELD_TYPES)
         if tparams:
             ts += tparams + [f"Vec<{tparams[0]}>", f"Option<{tparams[-1]}>"]
-        if gen_kind == "life":
+        if gen_kind in ("life", "life2"):
             ts += ["&'a str", "std::borrow::Cow<'a, str>"]
-        if gen_kind == "const":
-            ts += ["[i32; N]"]
+        if gen_kind == "life2":
+            ts += ["&'b str", "&'a &'b str"]
+        if gen_kind in ("const", "constdef", "constonly"):
+            ts += ["[i32; N]", "[Option<String>; N]"]
         return r.choice(ts)
 
     def mk_fields(shape):
@@ -231,8 +241,10 @@ def gen_c16_item(r: random.Random, idx: int):
         for p in tparams:
             if not any(p in t for _n, t, _a in fs):
                 fs.append((f"p_{p.lower()}" if shape == "named" else None, f"Vec<{p}>" if shape != "unit" else p, []))
-        if gen_kind == "life" and not any("'a" in t for _n, t, _a in fs):
+        if gen_kind in ("life", "life2") and not any("'a" in t for _n, t, _a in fs):
             fs.append(("p_l" if shape == "named" else None, "&'a str", []))
+        if gen_kind == "life2" and not any("'b" in t for _n, t, _a in fs):
+            fs.append(("p_m" if shape == "named" else None, "&'b str", []))
         return fs
 
     def keyset(attrs, skip_hides_serde=False):
@@ -259,7 +271,7 @@ def gen_c16_item(r: random.Random, idx: int):
     if r.random() < 0.5:
         it.kind = "struct"
         it.shape = r.choice(["unit", "newtype", "tuple", "named", "named", "named"])
-        if it.shape == "unit" and (tparams or gen_kind == "life"):
+        if it.shape == "unit" and (tparams or gen_kind in ("life", "life2")):
             it.shape = "named"
         it.cattrs = pick(struct_keys(r, it.shape == "named"), "struct")
         if tparams and r.random() < 0.2:
@@ -320,6 +332,8 @@ def gen_c16_item(r: random.Random, idx: int):
                 it.variants.append(("P2", "newtype", [], [(None, tparams[1], [])]))
             if gen_kind == "life":
                 it.variants.append(("P3", "newtype", [], [(None, "&'a str", [])]))
+            if gen_kind == "life2":
+                it.variants.append(("P3", "newtype", [], [(None, "&'a &'b str", [])]))
     if any(k == "!invalid" for _sp, k, _t in it.cattrs):
         must_err.append("container: unknown key or malformed value in #[ts(..)]")
     return it, must_err
@@ -366,8 +380,25 @@ def c10_groups(r: random.Random, n_groups: int):
         ("field", ['rename = "ff"', "default"], S_NAMED, "F"),
     ]
 
+    # other ts attributes the compared ones are combined with: (text, keys it cannot be combined with)
+    contexts = {
+        "struct": [('type = "Array<string>"', {"rename_all", "tag"}), ('as = "Vec<String>"', {"rename_all", "tag"}),
+                   ("export", set()), ('export_to = "sub/dir/"', set()), ("optional_fields", set())],
+        "enum": [('type = "string | null"', {"rename_all", "rename_all_fields", "tag", "content", "untagged"}),
+                 ('as = "Option<String>"', {"rename_all", "rename_all_fields", "tag", "content", "untagged"}),
+                 ("export", set()), ('export_to = "sub/e.ts"', set())],
+        "variant": [('type = "string"', {"rename_all"}), ('as = "String"', {"rename_all"}), ("inline", set())],
+        "field": [('type = "string"', {"flatten"}), ('as = "String"', {"flatten"}), ("inline", {"flatten"})],
+    }
+    ctx = [""]
+
+    def contexts_for(level, keys):
+        return [c for c, bad in contexts[level] if not (bad & set(keys))]
+
     def fill(tmpl, slot, attrs_text):
         d = {"C": "", "V": "", "F": ""}
+        if ctx[0]:
+            attrs_text = f"#[ts({ctx[0]})]" + (" " if attrs_text else "") + attrs_text
         d[slot] = attrs_text + (" " if attrs_text else "")
         return tmpl.format(**d)
 
@@ -377,7 +408,9 @@ def c10_groups(r: random.Random, n_groups: int):
             us = [u for u in us if not u.startswith("with =")]   # `with` is a supported key on fields
         return r.choice(us)
 
-    for level, key, a, b, tmpl, slot in catalog:
+    combos = [(entry, "") for entry in catalog] + [(entry, c) for entry in catalog for c in contexts_for(entry[0], [entry[1]])]
+    for (level, key, a, b, tmpl, slot), c in combos:
+        ctx[0] = c
         base = fill(tmpl, slot, "")
         # spelling
         groups.append({"kind": "spelling", "level": level, "key": key, "unknown_class": None,
@@ -390,7 +423,13 @@ def c10_groups(r: random.Random, n_groups: int):
                                        ("ts+serde", fill(tmpl, slot, f"#[ts({a})] #[serde({b})]")),
                                        ("serde+ts", fill(tmpl, slot, f"#[serde({b})] #[ts({a})]"))],
                            "plain": base})
-    for level, keys, tmpl, slot in pairs:
+        if c:
+            groups[-1]["context"] = c.split(" ")[0]
+            if b is not None:
+                groups[-2]["context"] = c.split(" ")[0]
+    pair_combos = [(pr, "") for pr in pairs] + [(pr, c) for pr in pairs for c in contexts_for(pr[0], [k.split(" ")[0] for k in pr[1]])]
+    for (level, keys, tmpl, slot), c in pair_combos:
+        ctx[0] = c
         base = fill(tmpl, slot, "")
         joined = ", ".join(keys)
         rev = ", ".join(reversed(keys))
@@ -401,9 +440,12 @@ def c10_groups(r: random.Random, n_groups: int):
                                    ("split", fill(tmpl, slot, split)),
                                    ("ts-list", fill(tmpl, slot, f"#[ts({', '.join(k for k in keys if k != 'default')})]"))],
                        "plain": base})
+        if c:
+            groups[-1]["context"] = c.split(" ")[0]
     # unknown-key insertion, randomised
     while len(groups) < n_groups:
         level, key, a, b, tmpl, slot = r.choice(catalog)
+        ctx[0] = r.choice([""] + contexts_for(level, [key]))
         u = unknown_for(level)
         uclass = ("bareword" if "=" not in u and "(" not in u else ("call" if "(" in u.split("=")[0] else "key-value"))
         u2 = unknown_for(level)
@@ -417,6 +459,9 @@ def c10_groups(r: random.Random, n_groups: int):
         ]
         groups.append({"kind": "unknown-insertion", "level": level, "key": key, "unknown": u, "unknown_class": uclass,
                        "members": members, "plain": fill(tmpl, slot, "")})
+        if ctx[0]:
+            groups[-1]["context"] = ctx[0].split(" ")[0]
+    ctx[0] = ""
     return groups
 
 
